@@ -34,8 +34,8 @@ LEVEL = "exploration"
 RULE = (
     "Hypothesis-generated class hierarchies (1-4 classes: chains, siblings, two-root mixins, diamonds) rendered to "
     "source text and exec'd, x the order in which the classes are compiled (definition order, a permutation, or "
-    "incrementally while defining) x 3 tables aimed at the target class; pandas and polars families. 85 % of the "
-    "cases take their choices from a PRNG seeded by one Hypothesis draw (honest feature probabilities), 15 % from "
+    "incrementally while defining) x 3 tables aimed at the target class; pandas and polars families. 90 % of the "
+    "cases take their choices from a PRNG seeded by one Hypothesis draw (honest feature probabilities), 10 % from "
     "Hypothesis draws directly (boundary-heavy). 35 % of the cases avoid every feature that triggers a recorded "
     "defect (label avoids-known-defect-features), so nothing is masked there. Non-trivial: hierarchy depth >= 2 with "
     ">= 1 field or method override, or an alias / regex field / Config extra is present, AND the target class compiled "
